@@ -81,6 +81,13 @@ def addTag (d : Dev) (t : TagSpec) : Dev :=
     else { d with objs := d.objs.map fun o' =>
             if o'.cls == t.c && o'.ins == t.i then { o' with attrs := o'.attrs ++ [(t.a, tag)] } else o' }
 
+/-- the class-level instance (0) every CIP class in use gets, with its static attributes Revision (1) and
+Optional Attributes (4), INT 0 (Max Instance / Num Instances depend on interpreter history: not modelled) -/
+def addClassLevel (d : Dev) : Dev :=
+  let classes := d.objs.foldl (fun acc o => if acc.contains o.cls then acc else acc ++ [o.cls]) ([] : List Nat)
+  let clsAttr : Tag := { ty := .int, scalar := true, vals := [Val.zero .int] }
+  { d with objs := d.objs ++ classes.map fun c => { cls := c, ins := 0, attrs := [(1, clsAttr), (4, clsAttr)] } }
+
 def dump (d : Dev) : String :=
   let items := d.objs.flatMap fun o => o.attrs.map fun (a, t) =>
     s!"{o.cls}.{o.ins}.{a}=" ++ (match t.produce with | some bs => hexOfBytes bs | none => "X")
@@ -98,7 +105,7 @@ def handle : List String → Option String
     let maxb ← maxb.toNat?
     let specs ← (splitNonEmpty tags ',').mapM parseTag
     let d0 : Dev := { objs := [{ cls := router.1, ins := router.2, attrs := [] }], symbols := [], maxBytes := maxb }
-    let d := specs.foldl addTag d0
+    let d := addClassLevel (specs.foldl addTag d0)
     let rs ← (splitNonEmpty reqs ';').mapM parseReq
     let (_, outs) := runAll d rs
     pure (if outs.isEmpty then "-" else ";".intercalate outs)
@@ -107,7 +114,7 @@ def handle : List String → Option String
     let maxb ← maxb.toNat?
     let specs ← (splitNonEmpty tags ',').mapM parseTag
     let d0 : Dev := { objs := [{ cls := router.1, ins := router.2, attrs := [] }], symbols := [], maxBytes := maxb }
-    let d := specs.foldl addTag d0
+    let d := addClassLevel (specs.foldl addTag d0)
     let pre ← (splitNonEmpty pre ';').mapM parseReq
     let ms ← (splitNonEmpty members '&').mapM parseSimple
     let (d1, _) := runAll d pre
